@@ -33,6 +33,11 @@ OPS = [
     ("ok-none", r"return Ok\(None\);", "return Ok(Default::default());"),
     ("quote-ref-drop", r"quote!\(&#", "quote!(#"), ("quote-refref", r"quote!\(&&", "quote!(&"),
     ("first-last", r"\.first\(\)", ".last()"), ("next-last", r"\.iter\(\)\.next\(\)", ".iter().last()"),
+    # third generation: statement deletion and wrong names
+    ("del-call-stmt", r"^[ \t]+[a-z_][\w.]*\([^;\n]*\);\n", ""), ("del-assign-stmt", r"^[ \t]+\*?[a-z_][\w.]* = [^;\n]*;\n", ""),
+    ("del-extend-stmt", r"^[ \t]+[a-z_][\w.]*\.(?:extend|push)\((?:[^;\n]|\n(?![ \t]*\}))*?\);\n", ""),
+    ("name-literal", r"\"[a-z_]{2,14}\"(?= =>)", "\"zz_other\""), ("name-literal-rhs", r"(?<==> )\"[a-zA-Z_]{2,14}\"", "\"zz_other\""),
+    ("some-unwrap", r"\.unwrap_or\(&name\)", ""),
 ]
 
 def sites():
